@@ -27,6 +27,28 @@ func TestC04(t *testing.T) {
 			}
 			p.Items = append(pre, p.Items...)
 		}
+		if p.Cfg.MaxPages > 0 && rapid.IntRange(0, 5).Draw(rt, "overflowInTx") == 0 {
+			// one transaction that fills the data area, gets write-ahead pages from the overflow area in the
+			// middle (explicit flush), frees its last new pages again and goes on overwriting and flushing:
+			// the end markers move in both directions while overflow pages are in use
+			var ops []harness.Op
+			ops = append(ops, harness.Op{K: harness.OpFill, A: rapid.IntRange(0, 2).Draw(rt, "leave")},
+				harness.Op{K: harness.OpWriteMany, A: rapid.IntRange(0, 30).Draw(rt, "p1"), B: rapid.IntRange(1, 3).Draw(rt, "c1"), C: 21},
+				harness.Op{K: harness.OpFlushTx})
+			for i, nfree := 0, rapid.IntRange(1, 3).Draw(rt, "nfree"); i < nfree; i++ {
+				ops = append(ops, harness.Op{K: harness.OpFree, A: 0, B: 1})
+			}
+			ops = append(ops, harness.Op{K: harness.OpWriteMany, A: rapid.IntRange(0, 30).Draw(rt, "p2"), B: rapid.IntRange(2, 5).Draw(rt, "c2"), C: 22},
+				harness.Op{K: harness.OpFlushTx},
+				harness.Op{K: harness.OpAlloc, A: rapid.IntRange(1, 3).Draw(rt, "again2")},
+				harness.Op{K: harness.OpWriteMany, A: rapid.IntRange(0, 30).Draw(rt, "p3"), B: 2, C: 23})
+			at := rapid.IntRange(0, len(p.Items)).Draw(rt, "overflowAt")
+			items := append([]harness.Item{}, p.Items[:at]...)
+			items = append(items,
+				harness.Item{Tx: &harness.Tx{Ops: []harness.Op{{K: harness.OpAlloc, A: rapid.IntRange(4, 12).Draw(rt, "pre")}, {K: harness.OpWrite, A: 0, C: 31}, {K: harness.OpWrite, A: 1, C: 32}, {K: harness.OpWrite, A: 2, C: 33}, {K: harness.OpWrite, A: 3, C: 34}}, End: harness.EndCommit}},
+				harness.Item{Tx: &harness.Tx{Overflow: true, Ops: ops, End: rapid.SampledFrom([]string{harness.EndCommit, harness.EndCommit, harness.EndRollback}).Draw(rt, "oend")}})
+			p.Items = append(items, p.Items[at:]...)
+		}
 		return p
 	}, RunC04)
 }
